@@ -13,7 +13,7 @@ from collections import defaultdict
 
 from engine import tlc, core, tracecheck
 
-ACTIONS = ["Accept", "RxNoise", "RxFeatures", "RxBarrier", "RxErr",
+ACTIONS = ["Accept", "RxNoise", "RxFeatures", "RxBarrier", "RxBarrierReject", "RxErr",
            "RxPortStatus", "RxEchoFail", "RxEchoFailThen", "Disconnect", "Close", "SendTo",
            "SendToFail"]
 ADAPTER = "harness.adapters_c09:Adapter"
@@ -101,7 +101,9 @@ def run(ctx):
               "(all permitted alternatives) is replayed on the real OpenFlow_01_Task loop / "
               "Connection / OpenFlowNexus over OpenFlow bytes; events on nexus and connection, "
               "core.openflow.connections, socket shutdown state and the target of sendToDPID are "
-              "compared after EVERY step.  code->spec: random histories of the real code validated "
+              "compared after EVERY step; every event record includes what its handler saw at that "
+              "instant (registry entry of its dpid, target of a sendToDPID issued from inside the "
+              "handler), and one action lets a ConnectionUp listener disconnect the switch.  code->spec: random histories of the real code validated "
               "by TLC.  distinct = distinct action/argument sequences; non-trivial = at least one "
               "step other than Accept")
   ctx.assumptions = [
@@ -200,7 +202,8 @@ def _e(a, c=0, d=0, p=0, k="", ev=(), reg=(), gone=(), to=0, ok=True):
 def control_traces():
   """A hand-written history every correct controller produces (positive
   control) and corrupted copies TLC must reject (negative controls)."""
-  up, ps, dn = dict(k="Up", c=1, x=1), dict(k="PS", c=1, x=2), dict(k="Down", c=1, x=1)
+  up, ps = dict(k="Up", c=1, x=1, r=1, t=1), dict(k="PS", c=1, x=2, r=1, t=1)
+  dn = dict(k="Down", c=1, x=1, r=0, t=0)
   good = [_e("Accept", c=1), _e("RxFeatures", c=1, d=1), _e("RxPortStatus", c=1, p=2),
           _e("RxBarrier", c=1, k="match", ev=[up, ps], reg=[(1, 1)]),
           _e("SendTo", d=1, reg=[(1, 1)], to=1),
@@ -220,6 +223,9 @@ def control_traces():
   variant(4, to=0)                        # sendToDPID did not reach the connection
   variant(4, ok=False, to=0)              # registered dpid not reachable
   variant(2, ev=[ps])                     # port-status event before connection-up
+  variant(3, ev=[dict(up, r=0, t=0), ps])  # registry empty while connection-up is delivered
+  variant(3, ev=[dict(up, t=0), ps])      # send by dpid from the connection-up handler lost
+  variant(5, ev=[dict(dn, r=1, t=1)])     # registry still leads to c during connection-down
   return good, bad
 
 
@@ -256,6 +262,8 @@ def drive(arg):
           opts.append((3, "RxFeatures", c, d, 0, ""))
       if c in featsent:
         opts.append((5 if half else 0.5, "RxBarrier", c, 0, 0, "match"))
+        if half and nps.get(c, 0) == 0:
+          opts.append((0.7, "RxBarrierReject", c, 0, 0, "match"))
       opts.append((0.4, "RxBarrier", c, 0, 0, "other"))
       for k in ERRS:
         if k == "xid" or c in featsent:
@@ -317,6 +325,7 @@ def well_formed(obs):
   if not isinstance(obs["ev"], list) or not isinstance(obs["ok"], bool):
     return False
   for e in obs["ev"]:
-    if set(e) != {"k", "c", "x"} or not isinstance(e["c"], int) or not isinstance(e["x"], int):
+    if set(e) != {"k", "c", "x", "r", "t"} or \
+        not all(isinstance(e[f], int) for f in ("c", "x", "r", "t")):
       return False
   return isinstance(obs["to"], int)
